@@ -89,7 +89,7 @@ PROPS = {
         "assumptions": ["geometry re-derivation on load is a parameter `geom` of the theorems with the hypothesis that it returns the stored geometry (reload stability: C07_stable + sizing correspondence)", "channel plumbing (path / file object / bytes / hex / frombytes / filepath=) is carried by the tie"],
     },
     "C06": {
-        "suites": [(s, [(r"\.export\b", ["payload"]), (r"\.(add|rem)\b", ["bits", "cells", "bins", "table", "subbits"])]) for s in ("bloom", "cbf", "cms", "expanding", "cuckoo")] + [("hashes", None)],
+        "suites": [(s, [(r"\.export\b", ["payload"]), (r"\.(add|rem)\b", ["bits", "cells", "bins", "table", "subbits"])]) for s in ("bloom", "cbf", "cms", "expanding", "cuckoo")] + [("hashes", [(r"^h\.(default|md5|sha256|digest|utf8)\b", None)])],
         "search": True,
         "assumptions": ["the reference C reader/writer is rendered as an independent Lean specification (Spec/Layout.lean, Spec/Fnv.lean) and an independent Python reference in the search; a compiled C program is not part of the registered checks"],
     },
